@@ -30,6 +30,7 @@ def contexts(sep, c):
         "S1q": (['k%s\\"v\\"' % sep], 1, 1, "_none_", None),
         "S2": (["[g]"], 0, 0, "g", None),
         "S3": (["%sc" % c], 0, 0, "_none_", "c"),
+        "S3e": (["%s" % c], 0, 0, "_none_", ""),
         "S3i": ([kv, " %sc" % c], 1, 0, "_none_", "c"),
         "S4": (["%s %sc" % (kv, c)], 1, 1, "_none_", None),
         "S5": ([kv, " w"], 1, 1, "_none_", None),
@@ -114,8 +115,9 @@ def register(J):
     J.append(mk("K_ANY", "eq", "hashsemi", "S1", 10, True, T))
     J.append(mk("K_ANY", "sp", "hash", "S5", 8, True, T, python=1))
     # C05: comment lines
-    for ctx in ("S0", "S1", "S2", "S3", "S4", "S5", "S7", "S1q"):
-        J.append(mk("K_COMMENT", "eq", "hash", ctx, 8, True, Q if ctx in ("S1", "S5", "S7") else T))
+    for ctx in ("S0", "S1", "S2", "S3", "S3e", "S4", "S5", "S7", "S1q"):
+        J.append(mk("K_COMMENT", "eq", "hash", ctx, 8, True, Q if ctx in ("S1", "S5", "S7", "S3e") else T,
+                    props=["C05", "C04", "C17"]))
     for d, c in (("sp", "hash"), ("speq", "hashsemi"), ("coloneq", "semi"), ("none", "hash"), ("sptab", "hashsemi"), ("tabspeq", "hash")):
         J.append(mk("K_COMMENT", d, c, "S1", 8, True, Q if d in ("sp", "speq") else T))
     J.append(mk("K_COMMENT", "eq", "hashsemi", "S5", 10, True, T))
